@@ -611,6 +611,7 @@ package biscuit
 //@ ensures authWF(v)
 //@ ensures grown: tableGrown(*v.symbols, old(*v.symbols)) && factsGrown(*v.world.facts, old(*v.world.facts))
 //@ ensures keeps_inv: old(authInv(v)) ==> authInv(v)
+//@ ensures limits_kept[C11]: v.world.runLimits == old(v.world.runLimits) && v.baseWorld.runLimits == old(v.baseWorld.runLimits)
 
 //@ func (v *authorizer) AddRule(rule Rule)
 //@ serves C10 C13 C19
@@ -619,6 +620,7 @@ package biscuit
 //@ ensures authWF(v)
 //@ ensures grown: tableGrown(*v.symbols, old(*v.symbols)) && rulesGrown(v.world.rules, old(v.world.rules))
 //@ ensures keeps_inv: old(authInv(v)) ==> authInv(v)
+//@ ensures limits_kept[C11]: v.world.runLimits == old(v.world.runLimits) && v.baseWorld.runLimits == old(v.baseWorld.runLimits)
 
 //@ func (v *authorizer) AddCheck(check Check)
 //@ serves C10 C13 C19
@@ -627,6 +629,7 @@ package biscuit
 //@ ensures authWF(v) && len(v.checks) == old(len(v.checks)) + 1
 //@ ensures grown: (arr(v.checks) == old(arr(v.checks)) && off(v.checks) == old(off(v.checks)) && cap(v.checks) == old(cap(v.checks))) || fresh(arr(v.checks))
 //@ ensures keeps_inv: old(authInv(v)) ==> authInv(v)
+//@ ensures limits_kept[C11]: v.world.runLimits == old(v.world.runLimits) && v.baseWorld.runLimits == old(v.baseWorld.runLimits)
 
 //@ func (v *authorizer) AddPolicy(policy Policy)
 //@ serves C10 C13 C19
@@ -635,6 +638,7 @@ package biscuit
 //@ ensures authWF(v) && len(v.policies) == old(len(v.policies)) + 1
 //@ ensures grown: (arr(v.policies) == old(arr(v.policies)) && off(v.policies) == old(off(v.policies)) && cap(v.policies) == old(cap(v.policies))) || fresh(arr(v.policies))
 //@ ensures keeps_inv: old(authInv(v)) ==> authInv(v)
+//@ ensures limits_kept[C11]: v.world.runLimits == old(v.world.runLimits) && v.baseWorld.runLimits == old(v.baseWorld.runLimits)
 
 // convenience wrappers over AddFact / AddRule / AddCheck / AddPolicy
 //@ func (v *authorizer) AddBlock(block ParsedBlock)
@@ -660,6 +664,7 @@ package biscuit
 //@ ensures wf: authWF(v) && len(v.checks) == old(len(v.checks)) + len(block.Checks)
 //@ ensures base_untouched[C13]: v.baseWorld == old(v.baseWorld) && v.baseSymbols == old(v.baseSymbols)
 //@ ensures keeps_inv: old(authInv(v)) ==> authInv(v)
+//@ ensures limits_kept[C11]: v.world.runLimits == old(v.world.runLimits) && v.baseWorld.runLimits == old(v.baseWorld.runLimits)
 
 //@ func (v *authorizer) AddAuthorizer(a ParsedAuthorizer)
 //@ serves C10 C13 C19
@@ -675,6 +680,7 @@ package biscuit
 //@ ensures wf: authWF(v) && len(v.policies) == old(len(v.policies)) + len(a.Policies) && len(v.checks) == old(len(v.checks)) + len(a.Block.Checks)
 //@ ensures base_untouched[C13]: v.baseWorld == old(v.baseWorld) && v.baseSymbols == old(v.baseSymbols)
 //@ ensures keeps_inv: old(authInv(v)) ==> authInv(v)
+//@ ensures limits_kept[C11]: v.world.runLimits == old(v.world.runLimits) && v.baseWorld.runLimits == old(v.baseWorld.runLimits)
 
 //@ func (v *authorizer) Reset()
 //@ serves C10 C13 C19
@@ -686,6 +692,7 @@ package biscuit
 //@ ensures base_untouched[C13]: v.baseWorld == old(v.baseWorld) && v.baseSymbols == old(v.baseSymbols)
 //@ ensures authWF(v)
 //@ ensures keeps_inv: old(authInv(v)) ==> authInv(v)
+//@ ensures limits_kept[C11]: v.world.runLimits == v.baseWorld.runLimits && v.baseWorld.runLimits == old(v.baseWorld.runLimits)
 
 //@ func (v *authorizer) Biscuit() (res *Biscuit)
 //@ serves C10 C19
@@ -845,6 +852,7 @@ package biscuit
 //@ ensures keeps_wf: err != datalog.ErrWorldRunLimitTimeout ==> authWF(v)
 //@ ensures keeps_content: contentWF(v.biscuit)
 //@ ensures keeps_apart: err != datalog.ErrWorldRunLimitTimeout ==> factsApart(v) && rulesApart(v)
+//@ ensures limits_kept[C11]: v.world.runLimits == old(v.world.runLimits) && v.baseWorld.runLimits == old(v.baseWorld.runLimits)
 
 //@ func (v *authorizer) Query(rule Rule) (res FactSet, err error)
 //@ serves C03 C08 C10 C11 C13 C19
@@ -854,6 +862,7 @@ package biscuit
 //@ ensures limit_error_is_reported[C11]: err == nil ==> len(*v.world.facts) < v.world.runLimits.maxFacts
 //@ ensures base_untouched[C13]: v.baseWorld == old(v.baseWorld) && v.baseSymbols == old(v.baseSymbols)
 //@ ensures keeps_inv: err != datalog.ErrWorldRunLimitTimeout ==> authInv(v)
+//@ ensures limits_kept[C11]: v.world.runLimits == old(v.world.runLimits) && v.baseWorld.runLimits == old(v.baseWorld.runLimits)
 
 // ---------------------------------------------------------------------------
 // read-only accessors of a token (C17 C09 C10)
@@ -921,11 +930,13 @@ package biscuit
 //@ loop 4 invariant syms: tableGrown(*v.symbols, old(*v.symbols)) && tableGrownInLoop(*v.symbols, pre(*v.symbols))
 //@ ensures refused_once_evaluated[C18]: old(v.dirty) ==> err != nil && res == nil
 //@ ensures no_bytes_on_error[C18]: err != nil ==> res == nil
+//@ ensures limits_kept[C11]: v.world.runLimits == old(v.world.runLimits) && v.baseWorld.runLimits == old(v.baseWorld.runLimits)
 
 //@ func (v *authorizer) LoadPolicies(authorizerPolicies []byte) (err error)
 //@ serves C08 C10 C13 C18 C19
 //@ requires authInv(v)
 //@ modifies v.symbols, v.checks, v.policies, *v.world.facts, spare(*v.world.facts), v.world.rules, spare(v.world.rules)
+//@ ensures limits_kept[C11]: v.world.runLimits == old(v.world.runLimits) && v.baseWorld.runLimits == old(v.baseWorld.runLimits)
 
 //@ func (v *authorizer) loadPoliciesV2(pbPolicies *pb.AuthorizerPolicies) (err error)
 //@ serves C08 C10 C13 C18 C19
@@ -954,6 +965,7 @@ package biscuit
 //@ ensures counts[C18]: err == nil ==> len(v.checks) == len(pbPolicies.Checks) && len(v.policies) == len(pbPolicies.Policies)
 //@ ensures keeps_inv: err == nil ==> authInv(v)
 //@ ensures kinds[C18]: err == nil ==> (forall k int :: { v.policies[k] } 0 <= k && k < len(v.policies) ==> (v.policies[k].Kind == PolicyKindAllow && *pbPolicies.Policies[k].Kind == pb.Policy_Allow) || (v.policies[k].Kind == PolicyKindDeny && *pbPolicies.Policies[k].Kind == pb.Policy_Deny))
+//@ ensures limits_kept[C11]: v.world.runLimits == old(v.world.runLimits) && v.baseWorld.runLimits == old(v.baseWorld.runLimits)
 
 // ---------------------------------------------------------------------------
 // builders (builder.go): C07 C08 C10 C16 C20
